@@ -1110,6 +1110,59 @@ func (vc *VC) sprintfFacts(call ssa.CallInstruction, r Term) {
 		if cond, ok := vc.nlfreeOfFormat(c.Args[0], c.Args[1]); ok {
 			vc.gfact(Imp(cond, sx("nlfree", r)))
 		}
+		// a format made of literal text and plain %s verbs whose arguments are strings: the result is exactly the
+		// concatenation of the pieces
+		if k, ok := c.Args[0].(*ssa.Const); ok && k.Value != nil && k.Value.Kind() == constant.String {
+			if vals, ok := varargValues(c.Args[1]); ok {
+				f := constant.StringVal(k.Value)
+				var pieces []Term
+				ai, exact := 0, true
+				lit := ""
+				flush := func() {
+					if lit != "" {
+						pieces = append(pieces, vc.strLit(lit))
+						lit = ""
+					}
+				}
+				for i := 0; i < len(f) && exact; i++ {
+					if f[i] != '%' {
+						lit += string(f[i])
+						continue
+					}
+					if i+1 < len(f) && f[i+1] == '%' {
+						lit += "%"
+						i++
+						continue
+					}
+					if i+1 >= len(f) || f[i+1] != 's' || ai >= len(vals) {
+						exact = false
+						break
+					}
+					a := vals[ai]
+					ai++
+					if mi, ok := a.(*ssa.MakeInterface); ok {
+						a = mi.X
+					}
+					if b, ok := a.Type().Underlying().(*types.Basic); !ok || b.Kind() != types.String {
+						exact = false
+						break
+					}
+					flush()
+					pieces = append(pieces, vc.v(a))
+					i++
+				}
+				if exact && ai == len(vals) {
+					flush()
+					if len(pieces) > 0 {
+						t := pieces[len(pieces)-1]
+						for j := len(pieces) - 2; j >= 0; j-- {
+							t = sx("sconcat", pieces[j], t)
+						}
+						vc.gfact(Eq(r, t))
+					}
+				}
+			}
+		}
 		// a format starting with literal text: the result starts with the same character
 		if k, ok := c.Args[0].(*ssa.Const); ok && k.Value != nil && k.Value.Kind() == constant.String {
 			if f := constant.StringVal(k.Value); len(f) > 0 && f[0] != '%' {
